@@ -6,6 +6,10 @@ hooks_commits = subprocess.run(["git","-C","/repo","log","--format=%h %s"],captu
 hook_commits = [l.split()[0] for l in hooks_commits if l.split(" ",1)[1].startswith("verif:")]
 
 CHECKS = {
+ "C16": dict(engine="E2 e2e (in-worker sweep)", category="exploration", technique="bounded-exhaustive sweep of argument tuples for injected calls at two stop positions, with before/after comparison of registers, text and mappings",
+   text="At two stops (main, inside a callee) every call c<k>(args) for k = 0,1,2,3,6 over boundary argument tuples (134 calls quick, 2x350 thorough) is injected with Debugger::call: all registers incl. fs/gs base, the text and /proc/pid/maps are equal before and after, the target's own counter grows by exactly one and its argument checksum matches exactly these arguments; impossible calls fail with no effect; continuing prints exactly the state the calls left plus the native result.",
+   note="`vard`/`argd` (Debug-formatting through the program's own fmt code) need std-linked debuggees and are not covered. Libc-free debuggees; arguments are integers and bools (pointer arguments not exercised).",
+   design="3/C16"),
  "C04": dict(engine="E2 e2e (in-worker sweep)", category="exploration", technique="bounded-exhaustive sweep of every instruction address, source line and function name of every corpus binary against an independent DWARF reader",
    text="For each binary of the corpus (quick: 4 programs x {1.89 opt0 DWARF4, 1.95 opt1 DWARF5}; thorough: 56 programs x 8 PIE configurations) inside one debugger session: every instruction address of every user function -> function and (file, line) must equal the reference reader's innermost live function and row; every line 1..max+2 under two spellings of the file path -> the addresses of a line breakpoint must be statement rows of that line (of the next line only if the line has none) and every function instance with statements of the line in its body gets one; every function name -> addresses inside live instances, one per instance, at the prologue_end row.",
    note="Trusted: the reference reader (own lookup rules over gimli's row iterator; functions/rows outside executable sections are dead). gcc/assembler-shaped line tables (P-c, P-asm of the design) and non-PIE binaries are not in the corpus.",
@@ -94,7 +98,7 @@ m = {
  },
  "engines": [
    {"name":"E3 sched","path":"/verif/harness/src/sched.rs","serves_properties":["C12"],"kind_free_text":"hand-rolled CHESS: real threads parked at feature-gated schedule points, preemption-bounded DFS, worker subprocess per subtree"},
-   {"name":"E2 e2e","path":"/verif/harness/src/{e2x,e2w,isession,reftrace,dwarfref,corpus,c01}.rs","serves_properties":["C01","C02","C03","C04","C05","C10","C11","C14","C15"],"kind_free_text":"explicit-state exploration of command histories: one interactive worker process per session running the real Debugger over generated libc-free debuggees; reference single-step tracer; canonical-state deduplication"},
+   {"name":"E2 e2e","path":"/verif/harness/src/{e2x,e2w,isession,reftrace,dwarfref,corpus,c01}.rs","serves_properties":["C01","C02","C03","C04","C05","C10","C11","C14","C15","C16"],"kind_free_text":"explicit-state exploration of command histories: one interactive worker process per session running the real Debugger over generated libc-free debuggees; reference single-step tracer; canonical-state deduplication"},
    {"name":"E5 dap","path":"/verif/harness/src/{dapx,dapw,c12}.rs","serves_properties":["C12","C13"],"kind_free_text":"explicit-state exploration of DAP request histories: the real DebugSession::run on a thread inside one worker process per session, in-memory transport, real debuggee; protocol monitor + reference-trace oracle"},
    {"name":"E4 pure","path":"/verif/harness/src/{c07,c14,c17}.rs","serves_properties":["C07","C08","C14","C17"],"kind_free_text":"bounded-exhaustive / explicit-state exploration of in-process components against reference models"},
  ],
